@@ -67,6 +67,11 @@ class PatchConflict(BzrError):
             patch_line: Expected line content from patch.
         """
         self.line_no = line_no
+        # Patches are applied to byte lines; decode them for the message.
+        if isinstance(orig_line, bytes):
+            orig_line = orig_line.decode("utf-8", "replace")
+        if isinstance(patch_line, bytes):
+            patch_line = patch_line.decode("utf-8", "replace")
         self.orig_line = orig_line.rstrip("\n")
         self.patch_line = patch_line.rstrip("\n")
 
@@ -641,7 +646,10 @@ def iter_patched_from_hunks(orig_lines, hunks):
         orig_lines = iter(orig_lines)
     for hunk in hunks:
         while line_no < hunk.orig_pos:
-            orig_line = next(orig_lines)
+            orig_line = next(orig_lines, None)
+            if orig_line is None:
+                # the original text ends before the hunk starts
+                raise PatchConflict(line_no, b"", b"".join(seen_patch))
             yield orig_line
             line_no += 1
         for hunk_line in hunk.lines:
@@ -649,7 +657,10 @@ def iter_patched_from_hunks(orig_lines, hunks):
             if isinstance(hunk_line, InsertLine):
                 yield hunk_line.contents
             elif isinstance(hunk_line, (ContextLine, RemoveLine)):
-                orig_line = next(orig_lines)
+                orig_line = next(orig_lines, None)
+                if orig_line is None:
+                    # the original text ends inside the hunk
+                    raise PatchConflict(line_no, b"", b"".join(seen_patch))
                 if orig_line != hunk_line.contents:
                     raise PatchConflict(line_no, orig_line, b"".join(seen_patch))
                 if isinstance(hunk_line, ContextLine):
